@@ -183,6 +183,11 @@ func (ls *loaderStub) load(ctx context.Context, key K) (theine.Loaded[V], error)
 	rec := LdRec{Key: key, Start: simrt.Stamp(), StartT: simrt.Now(), Task: simrt.CurID()}
 	rec.Val = valLoaderBit | int64(key)<<32 | int64(id)<<8
 	rec.Token = fmt.Sprintf("L%d", id)
+	if !simrt.RaceEnabled && rd.Store != nil {
+		if v, exp, ok := internal.PeekEntry(rd.Store, key); ok && (exp == 0 || exp > internal.ClockNowPeek(rd.Store)) {
+			rec.Resident, rec.ResVal = true, v
+		}
+	}
 	idx := len(rd.Loader)
 	rd.Loader = append(rd.Loader, rec)
 	simrt.Yield(simrt.KStub)
